@@ -27,8 +27,8 @@
 
   Out of fuel is `none`; results are `ok state`, or an error: one of the specification's (`dec e`), `depth`
   (`_stack_error`: `_OP_save` on a full stack), or `stuck` (the destination does not hold what the instruction
-  writes, or the instruction is outside the machine model: callbacks other than the library's `(*MV).UnmarshalJSON`, `dyn`,
-  base64, float / TextUnmarshaler map keys).
+  writes, or the instruction is outside the machine model: callbacks other than the library's `(*MV).UnmarshalJSON` and the UnmarshalText of
+  map keys, `dyn`, base64).
 -/
 import SonicSpec.Model.DirCompile
 import SonicSpec.Model.BindStream
@@ -168,11 +168,19 @@ def skipKV (o : DecOpts) (s : St) (src : Bytes) (tgt : Nat) : StepRes :=
       | none => .err (.dec .syntax)
     | _ => .err (.dec .syntax)
 
+/-- Go's `==` on the keys the machine makes: `Bind.keyEq` on strings and integers; floats by value (the two zeros are one key);
+    a library struct by its content; a pointer key is a fresh allocation, equal to no other -/
+def keyEqX : GoVal → GoVal → Bool
+  | .f64 a, .f64 b => a == b || ((a == 0 || a == 0x8000000000000000) && (b == 0 || b == 0x8000000000000000))
+  | .f32 a, .f32 b => a == b || ((a == 0 || a == 0x80000000) && (b == 0 || b == 0x80000000))
+  | .lib a, .lib b => a == b
+  | a, b => keyEq a b
+
 /-- the entry of the map at VP for key `k` (mapassign): the one found, or a new zero element; VP moves to it -/
 def mapEntry (s : St) (k : GoVal) (E : GoType) (r : Bytes) (pc : Nat) : StepRes :=
   match getAt s.root s.vp with
   | some (.map kvs) =>
-    match kvs.findIdx? fun p => keyEq p.1 k with
+    match kvs.findIdx? fun p => keyEqX p.1 k with
     | some i => .next (pc + 1) { s with inp := r, vp := s.vp ++ [.child i] }
     | none => .next (pc + 1) { (s.put (.map (kvs ++ [(k, zeroOf E)]))) with inp := r, vp := s.vp ++ [.child kvs.length] }
   | _ => .err .stuck
@@ -197,6 +205,48 @@ def intKeyOp (o : DecOpts) (signed : Bool) (w : Nat) (E : GoType) (tgt pc : Nat)
       match r with
       | 34 :: r' => mapEntry s k E r' pc
       | _ => .err (.dec .syntax)
+
+/-- `_OP_map_key_f32 / f64` (assembler :1653-1665): the key is read as a number literal in place (`vnumber`), as the float
+    opcodes read a value; what the native parser refuses is a saved type error and the member is skipped; a float32 out of
+    range ends the run (`range_single`) -/
+def floatKeyOp (o : DecOpts) (K E : GoType) (tgt pc : Nat) (s : St) : StepRes :=
+  match scanNumber s.inp with
+  | none => skipKV o { s with et := merge s.et (some .mismatch) } (34 :: s.inp) tgt
+  | some (l, r) =>
+    match storeNumber o false l K (zeroOf K) with
+    | (_, some e) => .err (.dec e)
+    | (k, none) =>
+      match r with
+      | 34 :: r' => mapEntry s k E r' pc
+      | _ => .err (.dec .syntax)
+
+/-- the `UnmarshalText` methods of the library (go/harness/types.go, ops_dir_hook.go) on the unquoted key text; a library struct
+    value is carried as its `%+v` text.  TV: `tv` + strconv.Atoi;  DirVT: a value receiver, nothing is stored -/
+def libUnmarshalT (n : String) (text : Bytes) : Option (Except DErr GoVal) :=
+  match n with
+  | "TV" =>
+    some (match text with
+      | 116 :: 118 :: d =>
+        (match bindInt 64 d with
+         | some v => .ok (.lib (ascii ("{V:" ++ toString v ++ "}")))
+         | none => .error .other)
+      | _ => .error .other)
+  | "DirVT" => some (.ok (.lib (ascii "{V:0}")))
+  | _ => none
+
+/-- `_OP_map_key_utext / utext_p` (assembler :1680-1690): the key string is unquoted and handed to the key type's UnmarshalText
+    on a freshly allocated key; an error of the method ends the run.  `ptrKey`: the key type is the pointer itself -/
+def textKeyOp (n : String) (ptrKey : Bool) (E : GoType) (pc : Nat) (s : St) : StepRes :=
+  match scanString s.inp with
+  | none => .err (.dec .syntax)
+  | some (k, r) =>
+    match unquote k with
+    | none => .err (.dec .syntax)
+    | some text =>
+      match libUnmarshalT n text with
+      | none => .err .stuck
+      | some (.error e) => .err (.dec e)
+      | some (.ok v) => mapEntry s (if ptrKey then .ptr v else v) E r pc
 
 /-- position of a field in the resolved list (= its ID in the `FieldMap`) -/
 def fieldPos (fs : List Field) (f : Field) : Option Nat := fs.findIdx? fun g => g.idx == f.idx
@@ -394,6 +444,10 @@ def step (o : DecOpts) (lim : Option Nat) (ins : Instr) (pc : Nat) (s : St) : St
   | .mapKey .u16 (.map _ E) tgt => intKeyOp o false 16 E tgt pc s
   | .mapKey .u32 (.map _ E) tgt => intKeyOp o false 32 E tgt pc s
   | .mapKey .u64 (.map _ E) tgt => intKeyOp o false 64 E tgt pc s
+  | .mapKey .f32 (.map _ E) tgt => floatKeyOp o .f32 E tgt pc s
+  | .mapKey .f64 (.map _ E) tgt => floatKeyOp o .f64 E tgt pc s
+  | .mapKey .utextP (.map (.lib n) E) _ => textKeyOp n false E pc s
+  | .mapKey .utext (.map (.ptr (.lib n)) E) _ => textKeyOp n true E pc s
   | .any =>                                                                 -- :1239 the generic decoder (parse, then `toAny`); a number out of range ends the run
     match getAt s.root s.vp with
     | none => .err .stuck
@@ -421,6 +475,14 @@ def step (o : DecOpts) (lim : Option Nat) (ins : Instr) (pc : Nat) (s : St) : St
           | some u => .next (pc + 1) { (s.put (.str u)) with inp := t }
     | _ => .err (.dec .syntax)
   | .unsupported _ => .err (.dec .other)                                    -- :1297
+  | .unmarshal (.ptr (.lib n)) _ =>                                         -- :1862 the same on a pointer DESTINATION: allocated when nil (unmarshal_func :1118)
+    match skipVal o.validateString (skipFuel s.inp) s.inp with
+    | none => .err (.dec .syntax)
+    | some r =>
+      match libUnmarshalJ n (s.inp.take (s.inp.length - r.length)) with
+      | some (.ok v) => .next (pc + 1) { (s.put (.ptr v)) with inp := r }
+      | some (.error e) => .err (.dec e)
+      | none => .err .stuck
   | .unmarshalP (.ptr (.lib n)) _ =>                                        -- :1870 `skip_one`, then the type's own method on the text
     match skipVal o.validateString (skipFuel s.inp) s.inp with
     | none => .err (.dec .syntax)
@@ -429,7 +491,7 @@ def step (o : DecOpts) (lim : Option Nat) (ins : Instr) (pc : Nat) (s : St) : St
       | some (.ok v) => .next (pc + 1) { (s.put v) with inp := r }
       | some (.error e) => .err (.dec e)
       | none => .err .stuck
-  | _ => .err .stuck            -- dyn / bin / emptyBytes / float and TextUnmarshaler map keys / other callbacks / debug: outside the machine model
+  | _ => .err .stuck            -- dyn / bin / emptyBytes / other callbacks / debug: outside the machine model
 
 /-- the decoder's loop with `fuel` instructions; `_OP_recurse` runs the callee's program on the same stack -/
 def run (o : DecOpts) (co : COpts) (lim : Option Nat) : Nat → Program → Nat → St → Option (Except XErr St)
